@@ -27,6 +27,9 @@ for(range(max_tries))         `tryLoop … maxTries 0`
   chol(clone)                 `ops.cholEx w`, `calls + 1`
   return-if(noinfo)           `if anyInfo s'.st then (continue) else (true, i, s')`
 raise:NotPSDError             `.error .notPSDError`
+
+The table above is made precise in `LinOp/C16/SkSem.lean`: every role is a state transformer, `runSkeleton` executes a skeleton, and
+`skeleton_semantics_eq_model` / `model_refines_translated_bodies` (Properties/C16.lean) prove it equal to the model.
 -/
 namespace LinOp.C16
 
